@@ -617,6 +617,374 @@ func c19StopDuringLoss() []int64 {
 	return []int64{0, int64(dials1 - dials0), b2i(cl.c.IsConnected()), recon}
 }
 
+// scenario 39 (C13): a duplicate connection for id x arrives while the server's connection table is locked (a blocked
+// Write to a peer y that does not read holds it), and the first connection of x drops meanwhile: its removal queues
+// behind the duplicate's check.  Whatever is decided about the duplicate, at quiescence the ids reported as connected are
+// exactly the live connections, at most one per id, and new-client / disconnected callbacks pair up.
+func c19StaleEntryDuplicate() []int64 {
+	srv := ws.NewServer()
+	srv.AddSupportedSubprotocol("ocpp1.6")
+	cfg := ws.NewServerTimeoutConfig()
+	cfg.WriteWait = 20 * time.Second
+	cfg.PingWait = 0
+	srv.SetTimeoutConfig(cfg)
+	srv.SetMessageHandler(func(c ws.Channel, data []byte) error { return nil })
+	var mu sync.Mutex
+	news, gones := map[string]int{}, map[string]int{}
+	srv.SetNewClientHandler(func(c ws.Channel) { mu.Lock(); news[c.ID()]++; mu.Unlock() })
+	srv.SetDisconnectedClientHandler(func(c ws.Channel) { mu.Lock(); gones[c.ID()]++; mu.Unlock() })
+	go srv.Start(0, "/{ws}")
+	port := c19WaitAddr(srv)
+	if port == 0 {
+		return []int64{-3}
+	}
+	defer srv.Stop()
+	cnt := func(m map[string]int, id string) int { mu.Lock(); defer mu.Unlock(); return m[id] }
+	type peer struct {
+		c     *websocket.Conn
+		ended chan struct{}
+	}
+	dial := func(id string, read bool) *peer {
+		c, _, err := (&websocket.Dialer{Subprotocols: []string{"ocpp1.6"}, HandshakeTimeout: 5 * time.Second}).Dial(fmt.Sprintf("ws://127.0.0.1:%d/%s", port, id), nil)
+		if err != nil {
+			return nil
+		}
+		p := &peer{c: c, ended: make(chan struct{})}
+		if read {
+			go func() {
+				for {
+					if _, _, err := c.ReadMessage(); err != nil {
+						close(p.ended)
+						return
+					}
+				}
+			}()
+		}
+		return p
+	}
+	a := dial("x", true)
+	b := dial("y", false)
+	if a == nil || b == nil || !waitFor(3*time.Second, func() bool { return cnt(news, "x") == 1 && cnt(news, "y") == 1 }) {
+		return []int64{-4}
+	}
+	var progress, stop int64
+	writerDone := make(chan struct{})
+	payload := make([]byte, 1<<20)
+	go func() {
+		defer close(writerDone)
+		for i := 0; i < 4096 && atomic.LoadInt64(&stop) == 0; i++ {
+			if err := srv.Write("y", payload); err != nil {
+				return
+			}
+			atomic.AddInt64(&progress, 1)
+		}
+	}()
+	last, lastChange := int64(-1), time.Now()
+	deadline := time.Now().Add(15 * time.Second)
+	for {
+		pr := atomic.LoadInt64(&progress)
+		if pr != last {
+			last, lastChange = pr, time.Now()
+		}
+		if pr >= 3 && time.Since(lastChange) > 400*time.Millisecond {
+			break
+		}
+		if time.Now().After(deadline) {
+			atomic.StoreInt64(&stop, 1)
+			b.c.Close()
+			return []int64{1, 1} // the writer never stalled on this machine: the window cannot be opened, nothing to check
+		}
+		time.Sleep(5 * time.Millisecond)
+	}
+	a2c := make(chan *peer, 1)
+	go func() { a2c <- dial("x", true) }() // the handshake completes, the duplicate check waits for the table
+	time.Sleep(250 * time.Millisecond)
+	a.c.Close() // the first connection of x ends: its removal queues behind the duplicate's check
+	time.Sleep(250 * time.Millisecond)
+	atomic.StoreInt64(&stop, 1)
+	b.c.Close() // the blocked Write returns, the table is released
+	select {
+	case <-writerDone:
+	case <-time.After(25 * time.Second):
+		return []int64{-8}
+	}
+	var a2 *peer
+	select {
+	case a2 = <-a2c:
+	case <-time.After(5 * time.Second):
+		return []int64{-8, 1}
+	}
+	waitFor(5*time.Second, func() bool { return cnt(gones, "x") >= 1 })
+	time.Sleep(300 * time.Millisecond)
+	a2live := false
+	if a2 != nil {
+		select {
+		case <-a2.ended:
+		case <-time.After(200 * time.Millisecond):
+			a2live = true
+		}
+	}
+	_, registered := srv.GetChannel("x")
+	n, g := cnt(news, "x"), cnt(gones, "x")
+	consistent := a2live == registered && n-g == int(b2i(a2live))
+	if a2 != nil {
+		a2.c.Close()
+	}
+	waitFor(3*time.Second, func() bool { return cnt(news, "x") == cnt(gones, "x") })
+	time.Sleep(50 * time.Millisecond)
+	// afterwards the id is usable again, by one connection
+	a3 := dial("x", true)
+	works := a3 != nil && waitFor(2*time.Second, func() bool { _, ok := srv.GetChannel("x"); return ok }) && srv.Write("x", []byte("ok")) == nil
+	a4 := dial("x", true)
+	second := false
+	if a4 != nil {
+		select {
+		case <-a4.ended:
+		case <-time.After(300 * time.Millisecond):
+			second = true // two live connections for x
+		}
+		a4.c.Close()
+	}
+	if a3 != nil {
+		a3.c.Close()
+	}
+	if consistent && works && !second {
+		return []int64{1, 0}
+	}
+	return []int64{0, b2i(a2live), b2i(registered), int64(n), int64(g), b2i(works), b2i(second)}
+}
+
+// scenario 40 (C13): six concurrent StopConnection calls on the same id, 12 rounds: every accepted connection is
+// announced once and reported as disconnected exactly once, and is not reported as connected afterwards.
+func c19ConcurrentStopConnection() []int64 {
+	srv := ws.NewServer()
+	srv.AddSupportedSubprotocol("ocpp1.6")
+	srv.SetMessageHandler(func(c ws.Channel, data []byte) error { return nil })
+	var mu sync.Mutex
+	news, gones := map[ws.Channel]int{}, map[ws.Channel]int{}
+	srv.SetNewClientHandler(func(c ws.Channel) { mu.Lock(); news[c]++; mu.Unlock() })
+	srv.SetDisconnectedClientHandler(func(c ws.Channel) { mu.Lock(); gones[c]++; mu.Unlock() })
+	go srv.Start(0, "/{ws}")
+	port := c19WaitAddr(srv)
+	if port == 0 {
+		return []int64{-3}
+	}
+	defer srv.Stop()
+	total := func(m map[ws.Channel]int) int {
+		mu.Lock()
+		defer mu.Unlock()
+		n := 0
+		for _, v := range m {
+			n += v
+		}
+		return n
+	}
+	const rounds = 12
+	stale := int64(0)
+	for r := 0; r < rounds; r++ {
+		id := fmt.Sprintf("cp%d", r%2)
+		c, _, err := (&websocket.Dialer{Subprotocols: []string{"ocpp1.6"}, HandshakeTimeout: 3 * time.Second}).Dial(fmt.Sprintf("ws://127.0.0.1:%d/%s", port, id), nil)
+		if err != nil {
+			return []int64{-4, int64(r)}
+		}
+		ended := make(chan struct{})
+		go func() {
+			for {
+				if _, _, err := c.ReadMessage(); err != nil {
+					close(ended)
+					return
+				}
+			}
+		}()
+		if !waitFor(3*time.Second, func() bool { return total(news) >= r+1 }) {
+			return []int64{-5, int64(r)}
+		}
+		start := make(chan struct{})
+		var wg sync.WaitGroup
+		for i := 0; i < 6; i++ {
+			wg.Add(1)
+			go func() {
+				defer wg.Done()
+				<-start
+				_ = srv.StopConnection(id, websocket.CloseError{Code: websocket.CloseNormalClosure, Text: "bye"})
+			}()
+		}
+		close(start)
+		if !within(6*time.Second, wg.Wait) {
+			return []int64{-8, int64(r)}
+		}
+		select {
+		case <-ended:
+		case <-time.After(4 * time.Second):
+			return []int64{-8, 1, int64(r)}
+		}
+		c.Close()
+		if !waitFor(4*time.Second, func() bool { return total(gones) >= r+1 }) {
+			return []int64{-8, 2, int64(r)}
+		}
+		time.Sleep(25 * time.Millisecond)
+		if _, ok := srv.GetChannel(id); ok {
+			stale++
+		}
+	}
+	time.Sleep(100 * time.Millisecond)
+	mu.Lock()
+	defer mu.Unlock()
+	bad := int64(0)
+	for ch, n := range news {
+		if n != 1 || gones[ch] != 1 {
+			bad++
+		}
+	}
+	for ch := range gones {
+		if news[ch] == 0 {
+			bad++
+		}
+	}
+	if bad == 0 && stale == 0 && len(news) == rounds {
+		return []int64{1, 0}
+	}
+	return []int64{0, bad, stale, int64(len(news))}
+}
+
+// scenario 41 (C16, C17): a ws client is started, used and stopped three times, alternating Start and StartWithRetries:
+// every session connects, exchanges a message with the server and ends; a restarted client behaves like a fresh one.
+func c19ClientRestartRetries() []int64 {
+	srv := ws.NewServer()
+	srv.AddSupportedSubprotocol("ocpp1.6")
+	srv.SetMessageHandler(func(c ws.Channel, data []byte) error { return srv.Write(c.ID(), data) })
+	go srv.Start(0, "/{ws}")
+	port := c19WaitAddr(srv)
+	if port == 0 {
+		return []int64{-3}
+	}
+	defer srv.Stop()
+	cl := ws.NewClient()
+	cl.AddOption(func(d *websocket.Dialer) { d.Subprotocols = []string{"ocpp1.6"} })
+	cl.SetTimeoutConfig(c19ClientCfg())
+	got := make(chan string, 8)
+	cl.SetMessageHandler(func(data []byte) error { got <- string(data); return nil })
+	url := fmt.Sprintf("ws://127.0.0.1:%d/cpR", port)
+	for session := 0; session < 4; session++ {
+		ok := true
+		if session%2 == 0 {
+			if !within(4*time.Second, func() { ok = cl.Start(url) == nil }) {
+				return []int64{-8, int64(session)}
+			}
+		} else {
+			if !within(4*time.Second, func() { cl.StartWithRetries(url) }) {
+				return []int64{-8, int64(session)}
+			}
+		}
+		if !ok || !waitFor(2*time.Second, cl.IsConnected) {
+			return []int64{0, int64(session), 1}
+		}
+		msg := fmt.Sprintf("s%d", session)
+		if err := cl.Write([]byte(msg)); err != nil {
+			return []int64{0, int64(session), 2}
+		}
+		select {
+		case m := <-got:
+			if m != msg {
+				return []int64{0, int64(session), 3}
+			}
+		case <-time.After(2 * time.Second):
+			return []int64{0, int64(session), 4}
+		}
+		if !within(4*time.Second, cl.Stop) {
+			return []int64{-8, int64(session), 1}
+		}
+		if !waitFor(2*time.Second, func() bool { _, there := srv.GetChannel("cpR"); return !there }) {
+			return []int64{0, int64(session), 5}
+		}
+	}
+	return []int64{1, 0}
+}
+
+// scenario 42 (C15): a peer stops reading but keeps sending pings while the server writes more than the socket
+// buffers hold.  When the write times out the connection is cleaned up: the disconnected callback fires, blocked
+// writers are released with an error and every later Write fails at once instead of blocking.
+func c19StalledPeerKeepsPinging() []int64 {
+	srv := ws.NewServer()
+	srv.AddSupportedSubprotocol("ocpp1.6")
+	cfg := ws.NewServerTimeoutConfig()
+	cfg.WriteWait = 1200 * time.Millisecond
+	cfg.PingWait = 60 * time.Second
+	srv.SetTimeoutConfig(cfg)
+	srv.SetMessageHandler(func(c ws.Channel, data []byte) error { return nil })
+	var news, gones int64
+	srv.SetNewClientHandler(func(c ws.Channel) { atomic.AddInt64(&news, 1) })
+	srv.SetDisconnectedClientHandler(func(c ws.Channel) { atomic.AddInt64(&gones, 1) })
+	go srv.Start(0, "/{ws}")
+	port := c19WaitAddr(srv)
+	if port == 0 {
+		return []int64{-3}
+	}
+	defer func() { go srv.Stop() }()
+	peer, _, err := (&websocket.Dialer{Subprotocols: []string{"ocpp1.6"}, HandshakeTimeout: 3 * time.Second}).Dial(fmt.Sprintf("ws://127.0.0.1:%d/stalled", port), nil)
+	if err != nil {
+		return []int64{-4}
+	}
+	defer peer.Close()
+	if !waitFor(2*time.Second, func() bool { return atomic.LoadInt64(&news) == 1 }) {
+		return []int64{-5}
+	}
+	stopPings := make(chan struct{})
+	defer close(stopPings)
+	go func() {
+		for i := 0; ; i++ {
+			select {
+			case <-stopPings:
+				return
+			case <-time.After(15 * time.Millisecond):
+			}
+			if e := peer.WriteControl(websocket.PingMessage, []byte(fmt.Sprintf("p%d", i)), time.Now().Add(time.Second)); e != nil {
+				return
+			}
+		}
+	}()
+	payload := make([]byte, 1<<20)
+	const writers = 3
+	done := make(chan bool, writers)
+	for i := 0; i < writers; i++ {
+		go func() {
+			for n := 0; n < 4096; n++ {
+				if e := srv.Write("stalled", payload); e != nil {
+					done <- true
+					return
+				}
+			}
+			done <- false
+		}()
+	}
+	for i := 0; i < writers; i++ {
+		select {
+		case stalled := <-done:
+			if !stalled {
+				return []int64{1, 1} // the peer never stalled on this machine: nothing to check
+			}
+		case <-time.After(20 * time.Second):
+			return []int64{0, 1}
+		}
+	}
+	if !waitFor(6*time.Second, func() bool { return atomic.LoadInt64(&gones) == 1 }) {
+		return []int64{0, 2}
+	}
+	for i := 0; i < 3; i++ {
+		var werr error
+		if !within(3*time.Second, func() { werr = srv.Write("stalled", []byte("late")) }) {
+			return []int64{0, 3}
+		}
+		if werr == nil {
+			return []int64{0, 4}
+		}
+	}
+	if !within(5*time.Second, srv.Stop) {
+		return []int64{0, 5}
+	}
+	return []int64{1, 0}
+}
+
 func c19Eval(in []int64) []int64 {
 	if len(in) < 3 {
 		return []int64{-1}
@@ -636,12 +1004,20 @@ func c19Eval(in []int64) []int64 {
 		return c19SendStop(in[1])
 	case 6:
 		return c19SendDisconnect(in[1])
-	case 7, 8, 9, 10, 11, 12, 13, 14, 16, 19, 20, 21, 22, 23, 24, 25, 26, 27, 28, 29, 30, 31, 32:
+	case 7, 8, 9, 10, 11, 12, 13, 14, 16, 19, 20, 21, 22, 23, 24, 25, 26, 27, 28, 29, 30, 31, 32, 33, 34, 35, 36, 37, 38:
 		return gatedEval(in)
 	case 15:
 		return c19StopBusyReconnect()
 	case 18:
 		return c19StopDuringLoss()
+	case 39:
+		return c19StaleEntryDuplicate()
+	case 40:
+		return c19ConcurrentStopConnection()
+	case 41:
+		return c19ClientRestartRetries()
+	case 42:
+		return c19StalledPeerKeepsPinging()
 	}
 	return []int64{-1}
 }
